@@ -20,14 +20,15 @@ import (
 )
 
 type op struct {
-	K string   `json:"k"`
-	E uint32   `json:"e,omitempty"`
-	V uint32   `json:"v,omitempty"`
-	L []uint32 `json:"l,omitempty"`
-	D []uint32 `json:"d,omitempty"`
-	N int      `json:"n,omitempty"`
-	F string   `json:"f,omitempty"`
-	B []byte   `json:"b,omitempty"`
+	K string    `json:"k"`
+	E uint32    `json:"e,omitempty"`
+	V uint32    `json:"v,omitempty"`
+	L []uint32  `json:"l,omitempty"`
+	D []uint32  `json:"d,omitempty"`
+	N int       `json:"n,omitempty"`
+	F string    `json:"f,omitempty"`
+	B []byte    `json:"b,omitempty"`
+	S *reScript `json:"s,omitempty"` // ForEachRe / SForEachRe: iteration with a consumer that mutates the receiver
 }
 
 func nl(l []uint32) string { return vx.ListOf(l, func(x uint32) string { return vx.N(uint64(x)) }) }
@@ -67,6 +68,10 @@ func (o op) coq() string {
 		return "O" + o.K + " " + vx.Nat(o.N)
 	case "Decode":
 		return "ODecode " + bl(o.B)
+	case "ForEachRe":
+		return "OForEachRe " + vx.Bool(o.S.Rev) + " " + o.S.coq()
+	case "SForEachRe":
+		return "OSForEachRe " + o.S.coq()
 	case "Set":
 		return "OSet " + e + " " + vx.N(uint64(o.V))
 	}
@@ -581,6 +586,9 @@ func genDecode(r *vx.Rng, u []uint32) []byte {
 }
 
 func genSetOp(r *vx.Rng, u []uint32) op {
+	if r.Chance(1, 12) {
+		return op{K: "SForEachRe", S: genReScript(r, u, true)}
+	}
 	e := vx.Pick(r, u)
 	k := r.Intn(100)
 	switch {
@@ -644,6 +652,9 @@ func genSetOp(r *vx.Rng, u []uint32) op {
 }
 
 func genMapOp(r *vx.Rng, u []uint32) op {
+	if r.Chance(1, 7) {
+		return op{K: "ForEachRe", S: genReScript(r, u, false)}
+	}
 	e := vx.Pick(r, u)
 	k := r.Intn(100)
 	switch {
@@ -697,8 +708,13 @@ func emitSet(cf *vx.CasesFile, st *vx.Stats, init []uint32, h []op, tag string) 
 	mutating := 0
 	for i, o := range h {
 		before := append([]uint32{}, r.l...)
-		got := runSetOp(s, o)
-		want := r.expect(o)
+		var got, want string
+		if o.K == "SForEachRe" {
+			got, want = reIterSet(s, r, o, st)
+		} else {
+			got = runSetOp(s, o)
+			want = r.expect(o)
+		}
 		now := s.ToSlice()
 		obs[i] = obsTerm(got, setPairs(now), s.Size())
 		ops[i] = o.coq()
@@ -708,6 +724,7 @@ func emitSet(cf *vx.CasesFile, st *vx.Stats, init []uint32, h []op, tag string) 
 		}
 		if got != want || !eqSlice(now, r.l) || s.Size() != len(r.l) {
 			st.Fail(map[string]any{"sig": "", "kind": "set", "init": init, "history": h[:i+1], "op": o, "got": got, "want": want, "contents": now, "want_contents": r.l})
+			ops, obs = ops[:i+1], obs[:i+1]
 			break
 		}
 	}
@@ -725,8 +742,13 @@ func emitMap(cf *vx.CasesFile, st *vx.Stats, h []op, tag string) {
 	mutating := 0
 	for i, o := range h {
 		n0 := fmt.Sprint(r.l)
-		got := runMapOp(m, o)
-		want := r.expect(o)
+		var got, want string
+		if o.K == "ForEachRe" {
+			got, want = reIterMap(m, r, o, st)
+		} else {
+			got = runMapOp(m, o)
+			want = r.expect(o)
+		}
 		now := mapPairs(m)
 		obs[i] = obsTerm(got, now, m.Size())
 		ops[i] = o.coq()
@@ -735,7 +757,8 @@ func emitMap(cf *vx.CasesFile, st *vx.Stats, h []op, tag string) {
 			mutating++
 		}
 		if got != want || fmt.Sprint(now) != fmt.Sprint(append([]pair{}, r.l...)) || m.Size() != len(r.l) {
-			st.Fail(map[string]any{"sig": "", "kind": "map", "history": h[:i+1], "op": o, "got": got, "want": want})
+			st.Fail(map[string]any{"sig": "", "kind": "map", "history": h[:i+1], "op": o, "got": got, "want": want, "contents": now, "want_contents": fmt.Sprint(r.l)})
+			ops, obs = ops[:i+1], obs[:i+1]
 			break
 		}
 	}
@@ -893,7 +916,7 @@ func hist(args []string) {
 	out := fs.String("out", "cases.v", "")
 	stats := fs.String("stats", "stats.json", "")
 	_ = fs.Parse(args)
-	r := vx.NewRng(*seed)
+	r := vx.NewRng(mixSeed(*seed))
 	st := vx.NewStats("lockstep histories on universes of 2..6 uint32 elements (small values and byte-boundary values): ds.Set with all interface methods (60%), orderedmap.OrderedMap[uint32,uint32] (25%), ds.SetArithmetic with thresholds {default,1,2,3,0,-1} (15%); every result + contents/order/size after every op; distinct = distinct histories; non-trivial = at least two content-changing ops (sets/maps) or two reported crossings (arith)")
 	cf := &vx.CasesFile{
 		Header: "From Coq Require Import NArith ZArith List.\nFrom Verif.C11_Set Require Import Model Corr.\nImport ListNotations.\nOpen Scope N_scope.\n",
@@ -914,6 +937,22 @@ func hist(args []string) {
 		guarded(st, hs[i], func() { emitSet(cf, st, inits[i], hs[i], "directed") })
 	}
 	emitMap(cf, st, []op{{K: "Set", E: 1, V: 1}, {K: "Set", E: 2, V: 2}, {K: "Set", E: 3, V: 3}, {K: "Set", E: 2, V: 9}, {K: "MDelete", E: 2}, {K: "RevPairs"}, {K: "MDelete", E: 1}, {K: "Head"}, {K: "MDelete", E: 3}, {K: "Tail"}, {K: "Set", E: 2, V: 1}, {K: "Pairs", N: 1}}, "directed")
+	// iteration with a consumer that mutates the receiver: every command at the first / a middle / the last element
+	for i, sc := range directedReScripts() {
+		sc := sc
+		h := []op{{K: "Set", E: 1, V: 1}, {K: "Set", E: 2, V: 2}, {K: "Set", E: 3, V: 3}, {K: "Set", E: 4, V: 0}, {K: "Set", E: 5, V: 1}, {K: "ForEachRe", S: sc}, {K: "RevPairs"}, {K: "Set", E: 2, V: 5}, {K: "Pairs"}}
+		guarded(st, h, func() { emitMap(cf, st, h, "directed-reentrant") })
+		if !sc.Rev && i%2 == 0 {
+			via := []string{"ForEach", "Range", "Filter"}[(i/2)%3]
+			if sc.Stop >= 0 {
+				via = "ForEach"
+			}
+			cp := *sc
+			cp.Via = via
+			hs := []op{{K: "SForEachRe", S: &cp}, {K: "ToSlice"}, {K: "Add", E: 2}, {K: "ToSlice"}}
+			guarded(st, hs, func() { emitSet(cf, st, []uint32{1, 2, 3, 4, 5}, hs, "directed-reentrant") })
+		}
+	}
 	for tries := 0; cf.Len() < *n && tries < 2**n && len(st.OracleFailures) < 20 && hangs < 3; tries++ {
 		rr := r.Fork()
 		u := universe(rr)
